@@ -13,7 +13,14 @@ import (
 	"time"
 )
 
-const repoDir = "/repo"
+// repoDir is /repo for every registered command; GOVC_REPO points the verifier at a scratch copy (only used by
+// /verif/seeded/run_seeded_par.sh to try seeded changes without touching /repo).
+var repoDir = func() string {
+	if d := os.Getenv("GOVC_REPO"); d != "" {
+		return d
+	}
+	return "/repo"
+}()
 const verifDir = "/verif"
 
 func loadSpecs() (*Specs, error) {
